@@ -18,6 +18,8 @@ type c05Case struct {
 	Graph       *m.Graph `json:"graph"`
 	A           m.LDOpts `json:"opts_a"`
 	B           m.LDOpts `json:"opts_b"`
+	CtxA        int      `json:"ctx_by_reference_a,omitempty"` // 0 inline; 1-3 the @context of serialisation A is moved to a file (see externaliseContext)
+	CtxB        int      `json:"ctx_by_reference_b,omitempty"`
 }
 
 func genC05(t *rapid.T) c05Case {
@@ -131,7 +133,12 @@ func genC05(t *rapid.T) c05Case {
 			}
 		}
 	}
-	return c05Case{ProfileText: text, Graph: g, A: genLDOpts(t, len(g.Nodes)), B: genLDOpts(t, len(g.Nodes))}
+	c := c05Case{ProfileText: text, Graph: g, A: genLDOpts(t, len(g.Nodes)), B: genLDOpts(t, len(g.Nodes))}
+	if rapid.IntRange(0, 3).Draw(t, "ctxByReference") == 0 {
+		c.CtxA = rapid.IntRange(0, 3).Draw(t, "ctxA")
+		c.CtxB = rapid.IntRange(0, 3).Draw(t, "ctxB")
+	}
+	return c
 }
 
 // canonicalNQuads canonicalises a JSON-LD document with URDNA2015 (json-gold, trusted).
@@ -167,6 +174,18 @@ func optDiff(a, b m.LDOpts) []string {
 
 func decideC05(c c05Case) ev.Verdict {
 	da, db := c.Graph.JSONLD(c.A), c.Graph.JSONLD(c.B)
+	if c.CtxA > 0 {
+		if out, files, ok := externaliseContext(da, c.CtxA); ok {
+			da = out
+			writeCtxFiles(files)
+		}
+	}
+	if c.CtxB > 0 {
+		if out, files, ok := externaliseContext(db, c.CtxB); ok {
+			db = out
+			writeCtxFiles(files)
+		}
+	}
 	na, ea := canonicalNQuads(da)
 	nb, eb := canonicalNQuads(db)
 	if ea != nil || eb != nil || na != nb {
@@ -194,6 +213,9 @@ func decideC05(c c05Case) ev.Verdict {
 	labels := []string{fmt.Sprintf("dims-differing:%d", minInt(len(diff), 6))}
 	if c.Graph.Bulk > 0 {
 		labels = append(labels, fmt.Sprintf("bulk-nodes:%d", c.Graph.Bulk))
+	}
+	if strings.Contains(da, ctxDir()) || strings.Contains(db, ctxDir()) {
+		labels = append(labels, "context-by-reference")
 	}
 	if len(da) > 65536 || len(db) > 65536 {
 		labels = append(labels, "document-over-64KiB")
